@@ -94,18 +94,33 @@ fn handle_summary(state: &AppState) -> String {
 /// --RibbitBoundary--\r\n
 /// Checksum: [64-character SHA-256 hex]\r\n
 /// ```
+///
+/// The boundary is `RibbitBoundary` unless that string occurs in the content (MIME readers
+/// look for the delimiter anywhere in a part, so a version name such as
+/// `1.0--RibbitBoundary--x` would end the data part in the middle of a row); then a
+/// numbered variant that does not occur is used, as RFC 2046 requires.
 fn wrap_in_mime(bpsv_content: &str) -> String {
+    let mut boundary = String::from("RibbitBoundary");
+    let mut suffix = 0_u32;
+    while bpsv_content.contains(&boundary) {
+        boundary = format!("RibbitBoundary{suffix}");
+        suffix += 1;
+    }
+
+    let content_type = format!("Content-Type: multipart/alternative; boundary=\"{boundary}\"\r\n");
+    let opening = format!("--{boundary}\r\n");
+    let closing = format!("--{boundary}--\r\n");
     let mime_parts = [
         "MIME-Version: 1.0\r\n",
-        "Content-Type: multipart/alternative; boundary=\"RibbitBoundary\"\r\n",
+        &content_type,
         "\r\n",
-        "--RibbitBoundary\r\n",
+        &opening,
         "Content-Type: text/plain\r\n",
         "Content-Disposition: data\r\n",
         "\r\n",
         bpsv_content,
         "\r\n",
-        "--RibbitBoundary--\r\n",
+        &closing,
     ];
 
     // Calculate SHA-256 checksum of everything before "Checksum:" line
@@ -187,6 +202,24 @@ mod tests {
         let checksum = checksum_line.strip_prefix("Checksum: ").unwrap().trim();
         assert_eq!(checksum.len(), 64);
         assert!(checksum.chars().all(|c| c.is_ascii_hexdigit()));
+    }
+
+    #[test]
+    fn test_mime_boundary_does_not_occur_in_content() {
+        // A version name that contains the default delimiter
+        let bpsv = "Region!STRING:0|VersionsName!STRING:0\nus|1.0--RibbitBoundary--x\n## seqn = 1";
+        let mime = wrap_in_mime(bpsv);
+
+        let boundary = mime
+            .split("boundary=\"")
+            .nth(1)
+            .and_then(|rest| rest.split('"').next())
+            .unwrap();
+        assert!(!bpsv.contains(boundary));
+        // Exactly one opening and one closing delimiter, content untouched in between
+        assert_eq!(mime.matches(&format!("--{boundary}\r\n")).count(), 1);
+        assert_eq!(mime.matches(&format!("--{boundary}--\r\n")).count(), 1);
+        assert!(mime.contains(bpsv));
     }
 
     #[test]
